@@ -5,7 +5,7 @@ the implementation - every bit of the binary body, every truncation length, exte
 header rewrites, credentials minted under a second key - on the toy build (byte-exact vs the model) and the real build (oracle)."""
 import json
 from ..vlib import leanlib, cbuild, judge
-from ..gen import g_dec, g_unpack, g_stages
+from ..gen import g_dec, g_unpack, g_stages, g_memcmp
 from . import _cred_common as cc
 from . import _cred_checks as K
 
@@ -189,6 +189,9 @@ def run(ctx):
     # dec_validate_mac / dec_decrypt translated with their primitive calls as events: what is MAC'd and compared, deferred padding failure
     if g_stages.generate(ctx):
         leanlib.check_props(ctx, "C02Stages")
+    # crypto_memcmp: loop header checked on the AST, body translated; the fold reports a difference iff the strings differ
+    if g_memcmp.generate(ctx):
+        leanlib.check_props(ctx, "C02Memcmp")
     leanlib.check_props(ctx, "C02")
     drv = leanlib.driver(ctx)
     htoy = cc.build_toy(ctx)
